@@ -14,6 +14,13 @@ use oxidd_core::{
 mod set_var_order;
 pub use set_var_order::{set_var_order, set_var_order_seq};
 
+/// Verification hook (`--cfg oxidd_verif` only): if set, [`set_var_order()`]
+/// uses the concurrent bubble sort regardless of the diagram size and the
+/// number of workers
+#[cfg(oxidd_verif)]
+pub static VERIF_FORCE_CONCURRENT: std::sync::atomic::AtomicBool =
+    std::sync::atomic::AtomicBool::new(false);
+
 /// Swap the level given by `upper_no` with the level directly below.
 ///
 /// # Safety
